@@ -10,7 +10,9 @@ const TRIVIA: &[&str] = &[" ", "  ", "\t", "\n", "\n\n", " // note\n", " /* c */
     " /*/ a */ ", " /*/*/ ", " /***/ ", " /**/ ", " /* /* */ ", " /*//*/ ", " /*/\n*/ ", " /* a **/ ", " /* \" */ ", " /* ' */ ", " // */\n", " // /*\n", " /// \"\n", " /* *//**/ ",
 ];
 const PRE_DIRECTIVE: &[&str] = &[" ", "\t", "/* c */ ", "/**/", "/* a\n b */ ", " \\\n", "/*/ */\t", "  /* x */  /* y */ "];
-const HTRIVIA: &[&str] = &[" ", "  ", "\t", " \\\n ", "\t\t"];
+const HTRIVIA: &[&str] = &[" ", "  ", "\t", " \\\n ", "\t\t", " /* h */ ", "/**/", " /* a */\t/* b */ ", " \\\n\t/* after a splice */ "];
+/// at the end of a directive line, in front of the line break
+const DIRECTIVE_END: &[&str] = &[" ", "\t", " /* t */", " // t", " \\\n", "/* a */ /* b */", "/**/", " // t /* u */"];
 
 /// Insert trivia at token boundaries. Boundaries: every existing blank or newline (replaced by a
 /// trivia string that still separates), and both sides of ( ) [ ] { } ; , which never merge with
@@ -55,6 +57,12 @@ fn add_trivia(text: &str, picks: &[u8]) -> (String, usize, usize) {
                         Some(t) => out.push_str(t),
                         None => out.push(' '),
                     }
+                } else if c == b'\n' && !after_angle && prev != b'\\' {
+                    // blanks, comments or a splice between the last token of the directive and the line break
+                    if let Some(t) = next(DIRECTIVE_END, &mut kinds, &mut used) {
+                        out.push_str(t);
+                    }
+                    out.push('\n');
                 } else {
                     out.push(c as char);
                 }
